@@ -3252,6 +3252,19 @@ class QuicConnection:
             reason_phrase = ""
 
         reason_bytes = reason_phrase.encode("utf8")
+
+        # the reason phrase must not prevent the frame from fitting in the packet
+        max_reason_length = builder.remaining_buffer_space - (
+            APPLICATION_CLOSE_FRAME_CAPACITY
+            if frame_type is None
+            else TRANSPORT_CLOSE_FRAME_CAPACITY
+        )
+        if len(reason_bytes) > max_reason_length:
+            reason_bytes = (
+                reason_bytes[: max(0, max_reason_length)]
+                .decode("utf8", errors="ignore")
+                .encode("utf8")
+            )
         reason_length = len(reason_bytes)
 
         if frame_type is None:
